@@ -38,7 +38,15 @@ func (t *Term) write(sb *strings.Builder, d int) {
 		sb.WriteString(t.Op + ":" + t.Name)
 		return
 	case "local":
-		sb.WriteString("local:" + t.Name)
+		sb.WriteString("local:" + t.Name + "(")
+		for i, a := range t.Args {
+			if i > 0 {
+				sb.WriteString(", ")
+			}
+			a.write(sb, d+1)
+		}
+		sb.WriteString(")")
+		return
 	}
 	sb.WriteString(t.Op)
 	if t.Name != "" {
